@@ -142,6 +142,8 @@ func implC06(line string) string {
 			return errTok(err)
 		}
 		return strRes(c.fString.Call(u, v))
+	case "argobj": // argobj M R V S : Number.prototype.M.call(R, <scripted object>)  ->  result|call log
+		return argobjImpl(c, f[1], f[2], f[3], f[4])
 	case "nthis": // nthis M K : Number.prototype.M.call(<this of kind K>)
 		expr, ok := thisExprs[f[2]]
 		if !ok {
@@ -210,6 +212,69 @@ func litImpl(c *vmCtx, tok string) string {
 		return "ast-vs-run-mismatch:" + h.F64Hex(lf) + ":" + h.F64Hex(f)
 	}
 	return h.F64Hex(f)
+}
+
+// jsNum renders a double as a JavaScript expression with exactly that value.
+func jsNum(x float64) string {
+	switch {
+	case math.IsNaN(x):
+		return "NaN"
+	case math.IsInf(x, 1):
+		return "Infinity"
+	case math.IsInf(x, -1):
+		return "-Infinity"
+	case x == 0 && math.Signbit(x):
+		return "-0"
+	}
+	return "(" + strconv.FormatFloat(x, 'e', -1, 64) + ")"
+}
+
+func jsItems(tok string) string {
+	var parts []string
+	for _, it := range strings.Split(tok, ",") {
+		switch it {
+		case "o":
+			parts = append(parts, "'o'")
+		case "T":
+			parts = append(parts, "'T'")
+		default:
+			parts = append(parts, jsNum(h.HexF64(it)))
+		}
+	}
+	return "[" + strings.Join(parts, ",") + "]"
+}
+
+// argobjImpl builds an object whose valueOf / toString log their calls and follow the scripts, calls the
+// method through the public API and reports "<result>|<call log>".
+func argobjImpl(c *vmCtx, m, recv, vs, ss string) string {
+	var r string
+	switch {
+	case recv == "x":
+		r = "'12'"
+	case strings.HasPrefix(recv, "p:"):
+		r = jsNum(h.HexF64(recv[2:]))
+	case strings.HasPrefix(recv, "N:"):
+		r = "new Number(" + jsNum(h.HexF64(recv[2:])) + ")"
+	default:
+		return "bad-op"
+	}
+	src := `(function(){ var log = [], vi = 0, si = 0, vs = ` + jsItems(vs) + `, ss = ` + jsItems(ss) + `;
+  function pick(a, i) { var x = a[Math.min(i, a.length - 1)]; if (x === 'T') throw new SyntaxError('x'); if (x === 'o') return {}; return x; }
+  var o = { valueOf: function () { log.push('v'); return pick(vs, vi++); }, toString: function () { log.push('s'); return pick(ss, si++); } };
+  var res;
+  try { res = 'ok:' + Number.prototype.` + m + `.call(` + r + `, o); } catch (e) { res = 'throw:' + e.name; }
+  return res + '|' + (log.length ? log.join('') : '-'); })()`
+	v, err := c.vm.Run(src)
+	if err != nil {
+		return errTok(err)
+	}
+	out, _ := v.ToString()
+	i := strings.LastIndexByte(out, '|')
+	res, log := out[:i], out[i:]
+	if strings.HasPrefix(res, "ok:") {
+		return h.BytesTok(res[3:]) + log
+	}
+	return res + log
 }
 
 var thisExprs = map[string]string{
